@@ -120,10 +120,28 @@ def apply_rewrite(ctx, g, poly, rng, L, label_hist):
         label_hist.append('illegal-rename')
         return poly
     if op == 'add':
-        collide = str(rng.choice(['same-range', 'offset', 'disjoint']))
-        base = {'same-range': min(g.nodes.keys()), 'offset': min(g.nodes.keys()) + 1, 'disjoint': max(g.nodes.keys()) + 50}[collide]
-        flipped = g.nid_terminal[0] != min(g.nid_terminal) and False
-        h = gen.rand_graph(rng, L, idbase=int(base), maxw=3, nops=3, charges=False)
+        collide = str(rng.choice(['same-range', 'offset', 'disjoint', 'self-copy', 'flipped-copy', 'swapped-terminal-ids', 'fully-disjoint-ids']))
+        if collide == 'self-copy':
+            h = copy.deepcopy(g)
+        elif collide == 'flipped-copy':
+            h = copy.deepcopy(g)
+            h.flip()                      # same ids, terminal ids exactly swapped
+        else:
+            base = {'same-range': min(g.nodes.keys()), 'offset': min(g.nodes.keys()) + 1, 'disjoint': max(g.nodes.keys()) + 50,
+                    'swapped-terminal-ids': max(g.nodes.keys()) + 50, 'fully-disjoint-ids': max(g.nodes.keys()) + 50}[collide]
+            h = gen.rand_graph(rng, L, idbase=int(base), maxw=3, nops=3, charges=False)
+            if collide == 'swapped-terminal-ids':
+                # the other graph's terminals carry this graph's terminal ids in exchanged order
+                t0, t1 = h.nid_terminal
+                a0, a1 = g.nid_terminal
+                if a0 != a1 and a0 not in h.nodes and a1 not in h.nodes:
+                    h.rename_node_id(t0, a1)
+                    h.rename_node_id(t1, a0)
+            if collide == 'fully-disjoint-ids' and g.edges:
+                # edge ids disjoint as well
+                shift = max(g.edges.keys()) + 100
+                for eid in sorted(h.edges.keys(), reverse=True):
+                    h.rename_edge_id(eid, eid + shift)
         # the other graph must have the same terminal charges to denote a compatible operator
         h.nodes[h.nid_terminal[0]].qnum = g.nodes[g.nid_terminal[0]].qnum
         h.nodes[h.nid_terminal[1]].qnum = g.nodes[g.nid_terminal[1]].qnum
